@@ -376,6 +376,9 @@ def elementwise(expr, fnode=None, depth=6):
             return Elementwise(inner.source, inner.node, True, inner.reordered, inner.funcs)
         if isinstance(e.func, ast.Name) and nm == 'enumerate' and e.args:
             return elementwise(e.args[0], None, depth - 1)
+        if isinstance(e.func, ast.Name) and nm == 'range' and len(e.args) == 1 and isinstance(e.args[0], ast.Call) and \
+                isinstance(e.args[0].func, ast.Name) and e.args[0].func.id == 'len' and len(e.args[0].args) == 1:
+            return elementwise(e.args[0].args[0], None, depth - 1)          # every index of X: a pass over X
         if isinstance(e.func, ast.Attribute) and nm == 'keys' and not e.args:
             return elementwise(e.func.value, None, depth - 1)       # iterating a mapping iterates its keys
         if isinstance(e.func, ast.Attribute) and nm == 'copy' and not e.args:
